@@ -7,7 +7,7 @@ P="$1"; shift
 cd /tmp/sens_repo && git checkout -q -- . && git apply "$P" || { echo "patch does not apply: $P"; exit 3; }
 cd /tmp/wt_sens
 for id in "$@"; do
-    out=$(VERIF_N=${VERIF_N:-40} ./check "$id" 2>&1); code=$?
+    out=$(./check "$id" 2>&1); code=$?
     case $code in
       1) echo "CAUGHT $(basename $P) by $id: $(echo "$out" | grep -m1 'signature:' | cut -c1-160)";;
       0) echo "MISSED $(basename $P) by $id: $(echo "$out" | grep SUMMARY | cut -c1-200)";;
